@@ -94,6 +94,9 @@ def _parse_xfcc(header_value: str) -> list[XfccElement]:
             # Strip surrounding quotes
             if len(value) >= 2 and value[0] == '"' and value[-1] == '"':
                 value = _unescape_quoted(value[1:-1])
+            else:
+                # An unquoted value carries a literal quote as ``\"``.
+                value = value.replace('\\"', '"')
             if key in ("cert", "uri", "by"):
                 value = unquote(value)
             if key == "dns":
@@ -134,13 +137,21 @@ def _split_respecting_quotes(text: str, delimiter: str) -> list[str]:
     i = 0
     while i < len(text):
         ch = text[i]
-        if ch == '"':
-            in_quotes = not in_quotes
-            current.append(ch)
-        elif ch == "\\" and in_quotes and i + 1 < len(text):
+        if ch == "\\" and i + 1 < len(text) and (in_quotes or text[i + 1] == '"'):
+            # An escape pair: anything after a backslash inside a quoted value,
+            # and an escaped quote (``\"``) inside an unquoted one.  Neither
+            # may open or close a quoted segment.
             current.append(ch)
             current.append(text[i + 1])
             i += 1
+        elif ch == '"' and (in_quotes or (bool(current) and current[-1] == "=")):
+            # A quoted value starts directly after ``=`` and ends at the next
+            # unescaped quote.  A stray quote anywhere else is value text: if
+            # it toggled quoting, a quote inside an unquoted value (a URI SAN,
+            # say) would swallow the following element boundaries and let one
+            # element supply the identity of another.
+            in_quotes = not in_quotes
+            current.append(ch)
         elif ch == delimiter and not in_quotes:
             parts.append("".join(current))
             current = []
